@@ -434,7 +434,7 @@ package transport
 // window computed in signed arithmetic; afterwards both ledgers are charged with
 // exactly that size.
 //@ func (*loopyWriter).processData
-//@   prop C01
+//@   prop C01 C03
 //@   opt purecalls replenish onEachWrite
 //@   requires l != nil && l.activeStreams != nil && l.framer != nil
 //@   assert at return 1 l.sendQuota == 0 && ncalls("writeData") == 0
@@ -443,6 +443,7 @@ package transport
 //@   assert at call writeData#1 Z(size) <= Z(l.sendQuota) && l.sendQuota == old(l.sendQuota)
 //@   assert at call writeData#1 strQuota == int(l.oiws)-str.bytesOutStanding && size <= max(strQuota, 0)
 //@   assert at call writeData#1 arg2 == (dataItem.endStream && remainingBytes == 0)
+//@   assert at call writeData#1 implies(!isEmpty, size > 0)
 //@   assert at call replenish#1 arg0 == size
 //@   assert at call Discard#1 arg1 == dSize
 //@   assert at call updateStreamAfterWrite#1 arg1 == str && str.bytesOutStanding == int(l.oiws)-strQuota+size && l.sendQuota == old(l.sendQuota)-uint32(size)
@@ -451,15 +452,19 @@ package transport
 // outstanding bytes shrink by it, and a parked stream is re-activated only when
 // its signed window is positive again.
 //@ func (*loopyWriter).incomingWindowUpdateHandler
-//@   prop C01
+//@   prop C01 C03
 //@   requires l != nil && w != nil
 //@   assert at return 1 w.streamID == 0 && l.sendQuota == old(l.sendQuota)+w.increment
 //@   assert at call enqueue#1 arg1 == str && Z(l.oiws) - Z(str.bytesOutStanding) > 0 && str.state == active
+//@   assert at return 2 ncalls("enqueue") == 1 && str.state == active
+//@   assert at return end ncalls("enqueue") == 0 && implies(w.streamID != 0 && haskey(l.estdStreams, w.streamID), !(int(l.oiws)-l.estdStreams[w.streamID].bytesOutStanding > 0 && l.estdStreams[w.streamID].state == waitingOnStreamQuota))
 
 // After a write the stream goes back to the active list only with stream window left.
 //@ func (*loopyWriter).updateStreamAfterWrite
-//@   prop C01
+//@   prop C01 C03
 //@   assert at call enqueue#1 arg1 == str && Z(l.oiws) - Z(str.bytesOutStanding) > 0
+//@   assert at return 3 (ncalls("enqueue") == 1) == (lastret("isEmpty") == 0 && ncalls("writeHeader") == 0 && int(l.oiws)-str.bytesOutStanding > 0)
+//@   assert at return 3 implies(lastret("isEmpty") == 0 && ncalls("writeHeader") == 0 && int(l.oiws)-str.bytesOutStanding <= 0, str.state == waitingOnStreamQuota)
 
 // ---- C14: GOAWAY -----------------------------------------------------------------------------------------
 //
@@ -582,3 +587,23 @@ package transport
 //@   assert at call handle#1 isGRPC && headerError == nil && !protocolError
 //@   assert at call handle#1 ncalls("writeEarlyAbort") == 0
 //@   assert at call handle#1 ncalls("put") == 1
+
+// ---- C03: a stream that got window credit is put back on the active list ---------------------------
+//
+// Safety side of the liveness statement: no handler leaves a stream parked in
+// waitingOnStreamQuota once the peer has granted it credit.
+
+// WINDOW_UPDATE for a stream: afterwards the stream is not waiting with a
+// positive window; when it was waiting and the window became positive it is
+// active and was put on the active list exactly once.
+// (contract: see the C01 section above; the two return-site assertions there carry C03)
+
+// SETTINGS_INITIAL_WINDOW_SIZE raised: every established stream that was
+// waiting for stream quota is active again (and each was enqueued when visited).
+//@ func (*loopyWriter).applySettings
+//@   prop C03
+//@   requires l != nil
+//@   loop 1 invariant true
+//@   loop 2 invariant o < l.oiws && forallk(func(k uint32) bool { return implies(visited(k) && haskey(l.estdStreams, k), l.estdStreams[k].state != waitingOnStreamQuota) })
+//@   loop 2 exit forallk(func(k uint32) bool { return implies(haskey(l.estdStreams, k), l.estdStreams[k].state != waitingOnStreamQuota) })
+//@   assert at call enqueue#1 arg1 == stream && stream.state == active
